@@ -1,5 +1,5 @@
 (* Dispatch entries (name -> sx wrapper) for the Shell models. *)
-From BFG Require Import Base.Chars Base.Sx Shell.PosixQuote Shell.Sh.
+From BFG Require Import Base.Chars Base.Sx Shell.PosixQuote Shell.Sh Shell.PosixEnv.
 From Coq Require Import String.
 Local Open Scope N_scope.
 
@@ -15,6 +15,16 @@ Definition sx_token (t : token) : sx :=
 Definition sx_simple (c : simple) : sx :=
   L [sx_list (sx_pair sx_str sx_str) (s_env c); sx_list sx_str (s_argv c)].
 
+(* environment channel: items are lists of bits (kind 0 = str, 1 = shell_literal); a line is [0; items] (an iterable
+   of words) or [1; text] (a raw string) *)
+Definition sx_bit (b : bit) : sx := match b with BStr s => L [A 0; sx_str s] | BLit s => L [A 1; sx_str s] end.
+Definition sx_item (it : item) : sx := sx_list sx_bit it.
+Definition un_item (x : sx) : item := map un_bit (un_list x).
+Definition un_line (x : sx) : line :=
+  if N.eqb (un_N (nth_sx 0 x)) 0 then LWords (map un_item (un_list (nth_sx 1 x))) else LRaw (un_str (nth_sx 1 x)).
+Definition un_pairs (x : sx) : list (str * str) := map (fun p => (un_str (nth_sx 0 p), un_str (nth_sx 1 p))) (un_list x).
+Definition sx_proc (p : proc) : sx := L [sx_list (sx_pair sx_str sx_str) (p_env p); sx_list sx_str (p_argv p)].
+
 Definition table : list (string * (sx -> sx)) := [
   ("posix.quote", fun a => sx_str (quote (uw_of (nth_sx 0 a)) (un_str (nth_sx 1 a))));
   ("posix.inner_quote_info", fun a =>
@@ -25,5 +35,11 @@ Definition table : list (string * (sx -> sx)) := [
   ("posix.join", fun a => sx_str (join (uw_of (nth_sx 0 a)) (un_strs (nth_sx 1 a))));
   ("sh.lex", fun a => sx_opt (sx_list sx_token) (sh_lex (uw_of (nth_sx 0 a)) (un_str (nth_sx 1 a))));
   ("sh.words", fun a => sx_opt (sx_list sx_str) (sh_words (uw_of (nth_sx 0 a)) (un_str (nth_sx 1 a))));
-  ("sh.commands", fun a => sx_opt (sx_list sx_simple) (sh_commands (uw_of (nth_sx 0 a)) (un_str (nth_sx 1 a))))
+  ("sh.commands", fun a => sx_opt (sx_list sx_simple) (sh_commands (uw_of (nth_sx 0 a)) (un_str (nth_sx 1 a))));
+  ("posix.join_lines", fun a => sx_list sx_item (join_lines (map un_line (un_list (nth_sx 0 a)))));
+  ("posix.local_env", fun a => sx_list sx_item (local_env (un_pairs (nth_sx 0 a)) (un_line (nth_sx 1 a))));
+  ("posix.global_env", fun a => sx_list sx_item (global_env (un_pairs (nth_sx 0 a)) (map un_line (un_list (nth_sx 1 a)))));
+  ("posix.sh_text", fun a => sx_str (sh_text (uw_of (nth_sx 0 a)) (map un_item (un_list (nth_sx 1 a)))));
+  ("sh.run", fun a => sx_opt (sx_pair (sx_list sx_proc) sx_bool)
+      (sh_run (uw_of (nth_sx 0 a)) (un_pairs (nth_sx 1 a)) (un_str (nth_sx 2 a))))
 ]%string.
